@@ -2,6 +2,7 @@
 
 #include <algorithm>
 #include <cmath>
+#include <sstream>
 #include <sys/stat.h>	 //required to create a folder
 #include <sys/types.h>	 // required for stat.h
 
@@ -198,6 +199,24 @@ std::vector<std::vector<double>> Import_Table(std::string filepath, std::vector<
 			std::cerr << "Error in libphysica::Import_Data(" << filepath << "): The " << data_aux.size() << " entries do not form a table of " << rows << " rows." << std::endl;
 			std::exit(EXIT_FAILURE);
 		}
+		// Every line has to hold exactly one row of the table.
+		std::ifstream linefile(filepath);
+		for(unsigned int i = 0; i < ignored_initial_lines; i++)
+			linefile.ignore(10000, '\n');
+		std::string line;
+		while(std::getline(linefile, line))
+		{
+			std::istringstream line_stream(line);
+			unsigned int entries = 0;
+			while(line_stream >> x)
+				entries++;
+			if(entries != columns)
+			{
+				std::cerr << "Error in libphysica::Import_Data(" << filepath << "): The lines do not all hold " << columns << " entries." << std::endl;
+				std::exit(EXIT_FAILURE);
+			}
+		}
+		linefile.close();
 		if(!dimensions.empty() && dimensions.size() != columns)
 		{
 			std::cerr << "Error in libphysica::Import_Data(): Column length and dimension length do not match." << std::endl;
